@@ -6,6 +6,7 @@ import RV.C03.PreLemmas
 import RV.C03.ChoiceLemmas
 import RV.C03.ChoiceTops
 import RV.C03.NTDocLemmas
+import RV.C03.XmlTreeLemmas
 import RV.C03.NTLineLemmas
 import RV.C03.BaseRelLemmas
 import RV.C03.RefSplitLemmas
@@ -515,6 +516,89 @@ example : hiddenIds (choice sharedTail []) = [1] := by decide
 example : hiddenIds (choice (sharedTail.take 7) []) = [1, 2, 3] := by decide
 example : (choice [(bnO 1, .iri 11, .lit 1), (bnO 2, .iri 11, bnO 2)] []).2 = [(bnO 1, true), (bnO 2, false)] := by decide
 example : wDeep nested [] = false ∧ wDeep sharedTail [] = false := by decide
+
+/-! ## RDF/XML, element level (the `xml` serializer) -/
+
+/-- `rdfxml_tree_roundtrip`: for every list of triples with IRI / blank-node subjects, every base (or none) and every
+    resolver `res` that undoes `Serializer.relativize` on that base, the element tree the model of `XMLSerializer`
+    builds (one rdf:Description per distinct subject with rdf:about / rdf:nodeID; per (predicate, object) one property
+    element with rdf:resource / rdf:nodeID, or xml:lang / rdf:datatype and the lexical form as character data), read by
+    the RDF/XML node-element / property-element rules, gives back exactly the triples written — same IRIs, same
+    literals (lexical form, datatype, language), same blank-node labels; nothing lost, nothing added. -/
+def Statement_rdfxml_tree_roundtrip : Prop :=
+  ∀ (base : Option Str) (res : Str → Str) (g : List XTriple),
+    (∀ u, res (cutRef base u) = u) → (∀ t ∈ g, isNode t.1 = true) →
+    ∀ t, t ∈ readTree res (xmlTree base g) ↔ t ∈ g
+
+theorem rdfxml_tree_roundtrip : Statement_rdfxml_tree_roundtrip :=
+  fun base res g hres hwf => rdfxml_tree_roundtrip' base res g hres hwf
+
+/-- RFC 3986 reference resolution against the declared xml:base: a reference with a scheme stands for itself, any
+    other is merged with the base (§5.2.2) -/
+def resRFC (b : BaseIri) (v : Str) : Str :=
+  if (splitRef v).scheme.isSome then v else resolveRel b (relOf v)
+
+/-- … and that resolver satisfies the hypothesis of `rdfxml_tree_roundtrip` on absolute IRIs: for every reading `b` of
+    the base string, `resRFC b` undoes the cut on every IRI that has a scheme (with `strippable_rest_shape` and
+    `strippable_resolves`).  Without a base nothing is cut and the identity does. -/
+def Statement_rdfxml_resolver_rfc : Prop :=
+  ∀ (base : Str) (b : BaseIri), WfBase b → renderBase b = base →
+    ∀ u, (splitRef u).scheme.isSome = true → resRFC b (cutRef (some base) u) = u
+
+theorem rdfxml_resolver_rfc : Statement_rdfxml_resolver_rfc := by
+  intro base b hw hb u hu
+  simp only [cutRef]
+  split
+  · next hs =>
+    have hnone : (splitRef (u.drop base.length)).scheme = none := by
+      by_cases he : u.drop base.length = []
+      · rw [he]; decide
+      · exact (strippable_rest_shape' hs he).1
+    simp only [resRFC, hnone, Option.isSome_none, Bool.false_eq_true, if_false]
+    exact strippable_resolves' hs b hw hb
+  · simp [resRFC, hu]
+
+/-- `rdfxml_declared_base`: whatever `base=`, the graph's own base and the `xml_base` option are — whenever the writer
+    cuts references against a (non-empty) base `b`, the document declares `xml:base = b`: a reader resolves the cut
+    references against the very base they were cut against (findings C03-F41 / F42 were violations of exactly this). -/
+def Statement_rdfxml_declared_base : Prop :=
+  ∀ (baseArg storeBase xmlBaseOpt : Option Str) (b : Str),
+    (xmlBases baseArg storeBase xmlBaseOpt).2 = some b → b ≠ [] → (xmlBases baseArg storeBase xmlBaseOpt).1 = some b
+
+theorem rdfxml_declared_base : Statement_rdfxml_declared_base := by
+  intro baseArg storeBase xmlBaseOpt b h hne
+  have hemp : b.isEmpty = false := by cases b with
+    | nil => exact absurd rfl hne
+    | cons _ _ => rfl
+  cases xmlBaseOpt with
+  | none =>
+    simp only [xmlBases] at h ⊢
+    rw [h]; simp [hemp]
+  | some x =>
+    have key : ∀ bb : Option Str, (if some x = bb then bb else none) = some b → some x = some b := by
+      intro bb hh
+      by_cases e : some x = bb
+      · rw [if_pos e] at hh; rw [e]; exact hh
+      · rw [if_neg e] at hh; exact absurd hh (by simp)
+    cases baseArg with
+    | some a => simp only [xmlBases] at h ⊢; exact key _ h
+    | none => simp only [xmlBases] at h ⊢; exact key _ h
+
+/-- regression witness for C03-F42: the pre-fix head declared the option's xml:base and cut against the other base -/
+theorem old_xml_base_mismatch :
+    xmlBasesOld (some "http://ex/a/".toList) none (some "http://ex/q".toList) =
+      (some "http://ex/q".toList, some "http://ex/a/".toList) ∧
+    xmlBases (some "http://ex/a/".toList) none (some "http://ex/q".toList) = (some "http://ex/q".toList, none) := by
+  decide
+
+/-- non-vacuity: two subjects, a language literal, a typed literal, a blank node object, a reference cut against the base -/
+example : xmlTree (some "http://ex/d/".toList)
+    [(.iri "http://ex/d/s".toList, "http://ex/p".toList, .lit "v".toList none (some "en".toList)),
+     (.bnode "b".toList, "http://ex/p".toList, .iri "http://ex/d/s".toList),
+     (.iri "http://ex/d/s".toList, "http://ex/q".toList, .bnode "b".toList)] =
+    [⟨[(.about, "s".toList)], [⟨"http://ex/p".toList, [(.lang, "en".toList)], "v".toList⟩,
+                               ⟨"http://ex/q".toList, [(.nodeID, "b".toList)], []⟩]⟩,
+     ⟨[(.nodeID, "b".toList)], [⟨"http://ex/p".toList, [(.resource, "s".toList)], []⟩]⟩] := by decide +kernel
 
 /-! ## Layer 3 — HexTuples rows -/
 
